@@ -36,6 +36,28 @@ override, also the generic AbstractLinearOperator.as_matrix(op) - of the unreduc
 .T for single operators) are compared entry by entry with the NumPy Mueller matrix laid out as furax flattens pytrees
 (component-major: all I, then all Q, ...), on shapes with several elements per component; matrix @ flatten(x) is also
 compared with the model's value.
+
+STORED-ANGLE cases (`stored-*` keys, flag `stored`): the same ladder of operand kinds / data dtypes / modes at LARGE
+magnitudes (1e2 .. 1e6 rad, thorough 1e0 .. 1e8), but with GRID angles a = k / 2^j (`kj`) that the operand's dtype holds
+EXACTLY (|k| < 2^21 when any operand of the case is known to float32 only, else < 2^50) and whose sums / differences over
+the operands of a case are exact too, so that the angle stored in the operator - before AND after reduce() - is the
+angle of the case and the tolerance carries NO magnitude term: STOL32 = 5e-6 / STOL64 = 1e-13 (the unchanged code
+achieves 9e-7 / 2e-15 up to 1e8 rad: cos / sin of a float32 argument of size 1e5 are accurate relative to the stored
+argument).  The NumPy reference is evaluated at that stored angle; the model term receives (cos 2a, sin 2a) of the stored
+angle as rationals over 2^30 (float32 tolerance) or 2^52 (math.cos / math.sin in float64, rounded: not unit vectors exactly, the model's execution
+does not need it).  Single R / R.T (.I, .T.T), the three factories (scalar and array operands, random and linear-ramp
+arrays), explicit rotating-plate products and 2-3 operand chains.
+
+MIXED chains (kind `mixed`): one segment of polarimetry operators - R, R.T, R.I, HWP, HWP.I (lazy InverseOperator),
+polariser, polariser.T (generic TransposeOperator) - with operators of OTHER rule families on its left and / or right:
+PackOperator and its transpose, IndexOperator and its transpose, DiagonalOperator and its lazy inverse, Reshape / Ravel and
+their lazy transposes, MoveAxisOperator (the binary rules keyed on TransposeOperator / AbstractLazyInverseOperator /
+ReshapeTransposeOperator).  Every operand carries the component shape `sh` of ITS input (`bare`: a plain array, next to
+the polariser).  Observed like a chain (value before / after reduce(), reduce() twice, purity); the reference is NumPy
+(leaf-wise selection / scatter / scaling / reshaping and the component-wise Mueller actions).  Where the segment is
+expressible (R / R.T / R.I / HWP / polariser) the Coq model evaluates and reduces the SEGMENT on the input transported
+exactly (integers, dyadic scalings) through the right-hand neighbours by the harness, its values are transported through the
+left-hand neighbours, and the polarimetry entries of the reduced operator are compared with the model's reduced segment.
 """
 from __future__ import annotations
 
@@ -50,6 +72,12 @@ from lib import PropertyCheck, clist
 
 TOL64 = 1e-12
 TOL32 = 2e-5
+# stored-angle cases (grid angles, exact in the operand dtype, exact sums): no magnitude term
+STOL64 = 1e-13
+STOL32 = 5e-6
+GRID32 = 21  # |k| < 2^21: sums of <= 4 operands stay below 2^24 (float32 significand)
+GRID64 = 50  # |k| < 2^50: sums of <= 4 operands stay below 2^53
+CSBITS32, CSBITS64 = 30, 52  # (cos 2a, sin 2a) of a grid angle as rationals over 2^30 (float32 tolerance) / 2^52 (float64)
 # angle-precision term of the tolerance: an angle a known to eps * |a| gives cos 2a / sin 2a to 2 eps |a|; on Stokes values
 # of size <= 7 and with the rounding of a sum of two angles in reduce(): per rotation operand 4e-6 |a| (float32, eps/2 = 6e-8)
 # resp. 2e-14 |a| (float64, including the float64 evaluation of a = atan2(S, C) / 2 + k pi by the harness)
@@ -57,7 +85,16 @@ KA32 = 4e-6
 KA64 = 2e-14
 STOKES_N = {'I': 1, 'QU': 2, 'IQU': 3, 'IQUV': 4}
 SIDX = {1: [0], 2: [1, 2], 3: [0, 1, 2], 4: [0, 1, 2, 3]}
-TAGS = {'R': 0, 'RT': 1, 'H': 2, 'P': 3}
+TAGS = {'R': 0, 'RT': 1, 'RI': 1, 'H': 2, 'P': 3}
+ROTS = ('R', 'RT', 'RI')
+# operators of other rule families (mixed chains): kind -> class name of the real operator
+FOREIGN = {
+    'pack': 'PackOperator', 'packT': 'TransposeOperator', 'index': 'IndexOperator', 'indexT': 'TransposeOperator',
+    'diag': 'DiagonalOperator', 'diagI': 'DiagonalInverseOperator', 'reshape': 'ReshapeOperator',
+    'reshapeT': 'ReshapeTransposeOperator', 'ravel': 'RavelOperator', 'ravelT': 'ReshapeTransposeOperator',
+    'moveaxis': 'MoveAxisOperator',
+}
+LAZY_NAMES = {'HI': 'InverseOperator', 'PT': 'TransposeOperator'}
 
 # doubled unit vectors (cos 2a, sin 2a) as (cn, cd, sn, sd)
 AXIS = [(1, 1, 0, 1), (0, 1, 1, 1), (-1, 1, 0, 1), (0, 1, -1, 1)]
@@ -76,12 +113,13 @@ def fx():
         import numpy as np
 
         jax.config.update('jax_enable_x64', True)  # before furax (jax_healpy warns otherwise); toggled per case
-        from furax._base import core, rules  # noqa: F401
+        from furax._base import axes, core, diagonal, indices, linear, rules  # noqa: F401
         from furax.landscapes import StokesPyTree
         from furax.operators import hwp, polarizers, qu_rotations
 
         jax.config.update('jax_traceback_filtering', 'off')
-        _cache['mods'] = dict(jax=jax, jnp=jnp, np=np, core=core, Stokes=StokesPyTree, hwp=hwp, pol=polarizers, qu=qu_rotations)
+        _cache['mods'] = dict(jax=jax, jnp=jnp, np=np, core=core, Stokes=StokesPyTree, hwp=hwp, pol=polarizers, qu=qu_rotations,
+                              axes=axes, diagonal=diagonal, indices=indices, linear=linear)
     return _cache['mods']
 
 
@@ -96,7 +134,10 @@ def set_x64(flag: bool):
 
 
 def angle_list(arr):
-    """The float64 angles of the case (pure Python): a = atan2(S, C) / 2 + turns * pi, flat."""
+    """The float64 angles of the case (pure Python): a = atan2(S, C) / 2 + turns * pi, flat; grid angles (`kj`):
+    a = k / 2^j exactly."""
+    if 'kj' in arr:
+        return [math.ldexp(float(k), -j) for k, j in arr['kj']]
     turns = arr.get('turns') or [0] * len(arr['cs'])
     return [math.atan2(sn / sd, cn / cd) / 2 + t * math.pi for (cn, cd, sn, sd), t in zip(arr['cs'], turns)]
 
@@ -160,7 +201,7 @@ def op_coq(d) -> str:
     t = d['t']
     if t == 'R':
         return f'(PRot {d["id"]}%N {arr_coq(d["ang"])})'
-    if t == 'RT':
+    if t in ('RT', 'RI'):
         return f'(PRotT {d["id"]}%N {arr_coq(d["ang"])})'
     return '(PHwp _)' if t == 'H' else '(PPol _)'
 
@@ -201,10 +242,12 @@ def structure(stokes, shape, x64, dd=None):
     return m['Stokes'].class_for(stokes).structure_for(tuple(shape), data_dtype(x64, dd))
 
 
-def stokes_value(stokes, shape, x, x64, dd=None):
+def stokes_value(stokes, shape, x, x64, dd=None, bare=False):
     m = fx()
     np, jnp = m['np'], m['jnp']
     dt = data_dtype(x64, dd)
+    if bare:  # a plain array (the polariser's output side)
+        return jnp.asarray(np.array(x[0], dtype=np.float64).reshape(tuple(shape)), dtype=dt)
     cls = m['Stokes'].class_for(stokes)
     return cls(*[jnp.asarray(np.array(l, dtype=np.float64).reshape(tuple(shape)), dtype=dt) for l in x])
 
@@ -321,12 +364,22 @@ class World:
             self.snapshot(f'array{aid}', lambda: self.arrs[aid])
         return self.arrs[aid]
 
+    def structure_of(self, d, shape=None):
+        """Input structure of one operand: the case's (chains) or, in mixed chains, a Stokes pytree / a plain array
+        (`bare`) of the component shape `sh` the operand description carries."""
+        if 'sh' not in d:
+            return self.st
+        sh = tuple(d['sh'] if shape is None else shape)
+        if d.get('bare'):
+            return fx()['jax'].ShapeDtypeStruct(sh, data_dtype(self.case))
+        return structure(self.case['stokes'], sh, self.x64, self.case.get('dd'))
+
     def rotation(self, d):
         m = fx()
         rid = d['id']
         if rid not in self.objs:
             a = self.array(d.get('aid', rid), d['ang'], d.get('ak', 'jax'))
-            rot = m['qu'].QURotationOperator(a, self.st)
+            rot = m['qu'].QURotationOperator(a, self.structure_of(d))
             self.objs[rid] = rot
             self.ids[id(rot)] = rid
             self.snapshot(f'rot{rid}.angles', lambda: rot.angles)
@@ -336,20 +389,70 @@ class World:
         return sorted(label for label, (get, bits) in self.watch.items() if ang_bits(get()) != bits)
 
 
+def quiet_callback(solution):
+    return None
+
+
+def build_foreign(d, w):
+    """The real operator of another rule family (mixed chains).  The transposed / inverse forms are the LAZY ones the
+    library returns for `.T` / `.I` of an operator built on the `full` shape."""
+    m = fx()
+    np, jnp = m['np'], m['jnp']
+    t = d['t']
+    st = w.structure_of(d)
+    full = w.structure_of(d, d['full']) if 'full' in d else None
+    if t == 'pack':
+        return m['linear'].PackOperator(jnp.asarray(np.array(d['mask'], dtype=bool)), st)
+    if t == 'packT':
+        return m['linear'].PackOperator(jnp.asarray(np.array(d['mask'], dtype=bool)), full).T
+    if t in ('index', 'indexT'):
+        idx = jnp.asarray(np.array(d['idx'], dtype=np.int32))
+        key = idx if d['axis'] == 0 else (Ellipsis, idx)
+        if t == 'index':
+            return m['indices'].IndexOperator(key, in_structure=st)
+        return m['indices'].IndexOperator(key, in_structure=full).T
+    if t in ('diag', 'diagI'):
+        op = m['diagonal'].DiagonalOperator(jnp.asarray(np.array(d['d'], dtype=np.float64), dtype=data_dtype(w.case)), in_structure=st)
+        return op if t == 'diag' else op.I
+    if t == 'reshape':
+        return m['axes'].ReshapeOperator(tuple(d['to']), in_structure=st)
+    if t == 'reshapeT':
+        return m['axes'].ReshapeOperator(tuple(d['sh']), in_structure=full).T
+    if t == 'ravel':
+        return m['axes'].RavelOperator(in_structure=st)
+    if t == 'ravelT':
+        return m['axes'].RavelOperator(in_structure=full).T
+    if t == 'moveaxis':
+        return m['axes'].MoveAxisOperator(d['src'], d['dst'], in_structure=st)
+    raise ValueError(t)
+
+
 def build_ops(ops, w):
     """Real operators of a chain description; equal `id` = the same QURotationOperator object, equal
-    `aid` = the same angle operand object (possibly held by several rotation objects)."""
+    `aid` = the same angle operand object (possibly held by several rotation objects).  Mixed chains: 'RI' = rot.I,
+    'HI' = hwp.I (InverseOperator, built under a silent solver callback), 'PT' = polarizer.T, FOREIGN kinds."""
     m = fx()
     out = []
     for d in ops:
         t = d['t']
-        if t in ('R', 'RT'):
+        if t in ROTS:
             rot = w.rotation(d)
-            out.append(rot if t == 'R' else rot.T)
+            out.append(rot if t == 'R' else (rot.T if t == 'RT' else rot.I))
         elif t == 'H':
-            out.append(m['hwp'].HWPOperator(w.st))
+            out.append(m['hwp'].HWPOperator(w.structure_of(d)))
+        elif t == 'HI':
+            from furax import Config
+
+            with Config(solver_callback=quiet_callback):
+                out.append(m['hwp'].HWPOperator(w.structure_of(d)).I)
+        elif t == 'P':
+            out.append(m['pol'].LinearPolarizerOperator(w.structure_of(d)))
+        elif t == 'PT':
+            out.append(m['pol'].LinearPolarizerOperator(structure(w.case['stokes'], d['sh'], w.x64, w.case.get('dd'))).T)
+        elif t in FOREIGN:
+            out.append(build_foreign(d, w))
         else:
-            out.append(m['pol'].LinearPolarizerOperator(w.st))
+            raise ValueError(t)
     return out
 
 
@@ -431,7 +534,7 @@ def try_reduce(op):
 
 def case_steps(case):
     kind = case['kind']
-    if kind == 'chain':
+    if kind in ('chain', 'mixed'):
         return [{'ops': case['ops'], 'via': case.get('via', 'list')}]
     if kind == 'factory':
         return [{'which': case['which'], 'ang': case['ang'], 'ak': case.get('ak', 'jax'), 'aid': 1}]
@@ -491,7 +594,7 @@ def run_case(case):
     x64 = case.get('x64', True)
     set_x64(x64)
     kind = case['kind']
-    x = stokes_value(case['stokes'], case['shape'], x_values(case), x64, case.get('dd'))
+    x = stokes_value(case['stokes'], case['shape'], x_values(case), x64, case.get('dd'), bare=bool(case.get('bare_in')))
     if kind == 'mv':
         w = World(case)
         (op,) = build_ops(case['ops'], w)
@@ -514,7 +617,7 @@ def run_case(case):
                 obs['tdense_error'] = err
         obs['mutated'] = w.mutated()
         return obs
-    if kind in ('chain', 'factory'):
+    if kind in ('chain', 'factory', 'mixed'):
         (res,), mutated = observe_steps(case, x)
         res['mutated'] = mutated
         return res
@@ -552,10 +655,102 @@ def np_matrix(d, shape):
     return np.broadcast_to(np.array([[0.5, 0.5, 0.0, 0.0]]), sh + (1, 4)).copy()
 
 
+def foreign_apply(d, a):
+    """Leaf-wise action of an operator of another rule family on one NumPy array (float64, or dtype=object holding
+    Fractions / ints: the exact transport of the model's values); independent of furax."""
+    np = fx()['np']
+    t = d['t']
+    exact = a.dtype == object
+    if t == 'pack':
+        return a[np.array(d['mask'], dtype=bool)]
+    if t == 'packT':
+        out = np.zeros(tuple(d['full']), dtype=a.dtype)
+        out[np.array(d['mask'], dtype=bool)] = a
+        return out
+    if t in ('index', 'indexT'):
+        idx = np.array(d['idx'], dtype=np.int64)
+        key = (idx,) if d['axis'] == 0 else (Ellipsis, idx)
+        if t == 'index':
+            return a[key]
+        out = np.zeros(tuple(d['full']), dtype=a.dtype)
+        if d['axis'] == 0:
+            for p, i in enumerate(d['idx']):  # scatter-ADD: repeated indices accumulate
+                out[i] = out[i] + a[p]
+        else:
+            for p, i in enumerate(d['idx']):
+                out[..., i] = out[..., i] + a[..., p]
+        return out
+    if t in ('diag', 'diagI'):
+        if exact:
+            dv = np.array([Fraction(v) if t == 'diag' else 1 / Fraction(v) for v in d['d']], dtype=object)
+        else:
+            dv = np.array(d['d'], dtype=np.float64)
+            dv = dv if t == 'diag' else 1.0 / dv
+        return a * dv  # the diagonal runs along the last axis (axis_destination = -1)
+    if t == 'reshape':
+        return a.reshape(tuple(d['to']))
+    if t in ('reshapeT', 'ravelT'):
+        return a.reshape(tuple(d['full']))
+    if t == 'ravel':
+        return a.reshape((-1,))
+    if t == 'moveaxis':
+        return np.moveaxis(a, d['src'], d['dst'])
+    raise ValueError(t)
+
+
+def np_mixed_expected(ops, stokes, shape, x):
+    """Value of a mixed chain on x: four component slots (absent components are zero and stay zero) or one plain array,
+    through the component-wise Mueller actions and the leaf-wise neighbours, right to left."""
+    np = fx()['np']
+    n = STOKES_N[stokes]
+    idx = SIDX[n]
+    sh = tuple(shape)
+    bare = bool(ops[-1].get('bare'))
+    if bare:
+        v = np.array(x[0], dtype=np.float64).reshape(sh)
+    else:
+        v = np.zeros((4,) + sh)
+        for j, comp in zip(idx, x):
+            v[j] = np.array(comp, dtype=np.float64).reshape(sh)
+    for d in reversed(ops):
+        t = d['t']
+        if t in FOREIGN:
+            v = foreign_apply(d, v) if bare else np.stack([foreign_apply(d, v[j]) for j in range(4)])
+        elif t in ROTS:
+            a = np.broadcast_to(angle_floats(d['ang']), v.shape[1:])
+            c, s_ = np.cos(2 * a), np.sin(2 * a)
+            if t != 'R':
+                s_ = -s_
+            if 1 in idx:
+                q, u = v[1] * c - v[2] * s_, v[1] * s_ + v[2] * c
+                v = v.copy()
+                v[1], v[2] = q, u
+        elif t in ('H', 'HI'):  # the HWP matrix is its own inverse
+            v = v.copy()
+            v[2], v[3] = -v[2], -v[3]
+        elif t == 'P':
+            v = 0.5 * (v[0] + v[1])
+            bare = True
+        elif t == 'PT':
+            w = np.zeros((4,) + v.shape)
+            for j in (0, 1):
+                if j in idx:
+                    w[j] = 0.5 * v
+            v = w
+            bare = False
+        else:
+            raise ValueError(t)
+    if bare:
+        return [0, [[float(t) for t in v.ravel().tolist()]]]
+    return [n, [[float(t) for t in v[j].ravel().tolist()] for j in idx]]
+
+
 def np_expected(ops, stokes, shape, x):
     """Value of the chain on x computed with restricted Mueller matrices, or None when the chain is not
     composable (a polariser anywhere but first)."""
     np = fx()['np']
+    if any('sh' in d for d in ops):
+        return np_mixed_expected(ops, stokes, shape, x)
     if any(d['t'] == 'P' for d in ops[1:]):
         return None
     n = STOKES_N[stokes]
@@ -737,7 +932,7 @@ def step_ops(step):
 
 def step_name(step):
     if 'ops' in step:
-        return {'list': 'chain ', 'matmul': 'left-nested @ product ', 'rmatmul': 'right-nested @ product '}[step.get('via', 'list')] + ','.join(d['t'] + (str(d['id']) if 'id' in d else '') + (f'[{d.get("ak", "jax")}{d.get("aid", d["id"])}]' if 'id' in d else '')
+        return {'list': 'chain ', 'matmul': 'left-nested @ product ', 'rmatmul': 'right-nested @ product '}[step.get('via', 'list')] + ' @ '.join(d['t'] + (str(d['id']) if 'id' in d else '') + (f'[{d.get("ak", "jax")}{d.get("aid", d["id"])}]' if 'id' in d else '')
                                    for d in step['ops'])
     return f'{step["which"]}.create(angles={"None" if step["ang"] is None else step.get("ak", "jax") + str(step.get("aid", 1))})'
 
@@ -746,11 +941,13 @@ def expected_expr(ops):
     """Skeleton of the product as described by the case (exact angles of the case, not of the code)."""
     out = []
     for d in ops:
-        if d['t'] in ('R', 'RT'):
+        if d['t'] in ROTS:
             cs = [[cn / cd, sn / sd] for (cn, cd, sn, sd) in d['ang']['cs']]
             out.append([TAGS[d['t']], d['id'], list(d['ang']['shape']), cs])
-        else:
+        elif d['t'] in TAGS:
             out.append([TAGS[d['t']], 0, [], []])
+        else:  # mixed chains: the class name of the neighbour / of the lazy dual
+            out.append([FOREIGN.get(d['t']) or LAZY_NAMES[d['t']], 0, [], []])
     return out
 
 
@@ -792,6 +989,62 @@ def prod(t):
     return r
 
 
+def bshapes(sh):
+    """Angle shapes that broadcast to the component shape sh (any shape: mixed chains)."""
+    sh = tuple(sh)
+    out = [(), sh]
+    if len(sh) >= 1:
+        out.append((sh[-1],))
+    if len(sh) >= 2:
+        out.append(sh[:-1] + (1,))
+    return out
+
+
+def nest(flat, shape):
+    """Flat list -> nested lists of the given shape (C order)."""
+    shape = tuple(shape)
+    if len(shape) <= 1:
+        return list(flat)
+    step = prod(shape[1:])
+    return [nest(flat[i * step:(i + 1) * step], shape[1:]) for i in range(shape[0])]
+
+
+RESHAPES = {4: [(4,), (2, 2), (1, 4), (4, 1)], 6: [(6,), (2, 3), (3, 2), (1, 6)], 3: [(3,), (1, 3), (3, 1)], 2: [(2,), (1, 2), (2, 1)]}
+
+
+def mixed_split(case):
+    """(left neighbours, polarimetry segment, right neighbours) of a mixed chain."""
+    ops = case['ops']
+    pol = [k for k, d in enumerate(ops) if d['t'] not in FOREIGN]
+    return ops[:pol[0]], ops[pol[0]:pol[-1] + 1], ops[pol[-1] + 1:]
+
+
+def mixed_model_segment(case):
+    """The split when the segment is expressible in Model/Mueller.v (R / R.T / R.I / HWP / polariser, contiguous), else None."""
+    left, seg, right = mixed_split(case)
+    if all(d['t'] in ('R', 'RT', 'RI', 'H', 'P') for d in seg):
+        return left, seg, right
+    return None
+
+
+def exact_leaves(x, shape):
+    import numpy as np
+
+    return [np.array([Fraction(v) for v in l], dtype=object).reshape(tuple(shape)) for l in x]
+
+
+def transport(val, shape, left):
+    """A value of the model ([n, components of Fractions] on component shape `shape`) through the left-hand neighbours
+    (applied right to left), exactly."""
+    if val is None:
+        return None
+    n, comps = val
+    arrs = exact_leaves(comps, shape)
+    for d in reversed(left):
+        arrs = [foreign_apply(d, a) for a in arrs]
+    return [n, [[Fraction(v) for v in a.ravel().tolist()] for a in arrs]]
+
+
 class Check(PropertyCheck):
     id = 'C15'
     props = ['C15.v', 'C15Real.v']
@@ -812,6 +1065,17 @@ class Check(PropertyCheck):
         'rotation operand 4e-6 |a| (angle known to float32) or 2e-14 |a| (float64); float32-known angles stop at 1e3 rad. '
         'A Python float angle is weakly typed: next to a float32 angle array in the same chain QURotationRule adds them in '
         'float32 (jax and NumPy >= 2 semantics), so there it is counted as known to float32',
+        'stored-angle cases (`stored-*`): grid angles k / 2^j exactly representable in the operand dtype with exact sums, '
+        'so the oracle (NumPy float64 Mueller matrices at the angle AS STORED) uses 5e-6 (anything float32) / 1e-13 (all float64) '
+        'with no magnitude term up to 1e6 rad (thorough 1e8); the model term receives float64 libm values of (cos 2a, sin 2a) '
+        'rounded to rationals over 2^30 (float32 tolerance) / 2^52, which are unit vectors only up to that rounding (the model '
+        'is EXECUTED on them; the theorems with a unit_ang premise are not invoked)',
+        'mixed chains (kind `mixed`): PackOperator / IndexOperator / DiagonalOperator / Reshape / Ravel / MoveAxis and their lazy '
+        'transposes / inverses are NOT in the model; their leaf-wise action is a NumPy function of the harness (foreign_apply), '
+        'used both by the oracle and - on exact Fractions - to transport the input to and the model\'s values from the '
+        'polarimetry segment; only the polarimetry entries of the reduced operator are compared with the model (reductions among '
+        'the neighbours are judged by value only); segments holding hwp.I (InverseOperator, conjugate gradient, tolerance 1e-5) or '
+        'polarizer.T (generic TransposeOperator) are judged by the NumPy oracle only; block operators are not among the neighbours',
         'dense forms: as_matrix() results are judged by the harness against a NumPy block matrix in component-major (pytree leaf) '
         'order and tied to the model only through matrix @ flatten(x) = the model value on x; most are obtained under '
         'jax.disable_jit() (the same furax code with lax.fori_loop run step by step), one in 30 through the jitted path; when '
@@ -886,6 +1150,7 @@ class Check(PropertyCheck):
         float32 (data, an angle array, or the mode), else TOL64, plus per rotation operand KA * max |a|."""
         x64 = case['x64']
         any32 = (not x64) or case.get('dd') == 'f32'
+        stored = bool(case.get('stored'))  # grid angles, exact in every operand dtype, exact sums: no magnitude term
         ang = 0.0
         for st in case_steps(case) if case['kind'] != 'mv' else [{'ops': case['ops']}]:
             rots = [(d.get('ak', st.get('ak', 'jax')), d['ang']) for d in step_ops(st) if d['t'] in ('R', 'RT')]
@@ -896,6 +1161,8 @@ class Check(PropertyCheck):
                 e32 = eff32(ak, x64) or (ak == 'py' and weak32)
                 any32 = any32 or e32
                 ang += (KA32 if e32 else KA64) * max(abs(v) for v in angle_list(arr))
+        if stored:
+            return STOL32 if any32 else STOL64
         return (TOL32 if any32 else TOL64) + ang
 
     def dtype_cases(self, quick):
@@ -958,6 +1225,267 @@ class Check(PropertyCheck):
             if 'xden' in c:
                 c['x'] = [[v * c['xden'] + self.rng.randint(-2 ** 10, 2 ** 10) for v in l] for l in c['x']]
             c['tol'] = self.derive_tol(c)
+        return out
+
+    # -- stored-angle cases ------------------------------------------------------------------------
+    def grid_arr(self, ashape, decade, bits, top=None, ramp=False, csbits=CSBITS64):
+        """Grid angles a = k / 2^j with |a| ~ 10^decade: the step 2^-j is fixed by the LARGEST decade `top` of the case
+        (|k| < 2^bits there), so that every operand of the case lies on ONE grid and sums of <= 4 of them are exact in
+        the dtype the grid was chosen for.  `ramp`: a linear ramp (a plate spinning at constant speed).  `cs`: (cos 2a,
+        sin 2a) of that exact angle, float64 libm values rounded to multiples of 2^-csbits (for the model and the skeletons:
+        2^-30 where the case's tolerance is the float32 one, 2^-52 else; small denominators keep the Qc arithmetic cheap)."""
+        rng = self.rng
+        top = decade if top is None else max(top, decade)
+        e_top = math.floor(math.log2(10.0 ** top)) + 1
+        j = bits - e_top
+        kb = max(3, bits - (e_top - (math.floor(math.log2(10.0 ** decade)) + 1)))
+        n = prod(ashape)
+        if ramp and n > 1:
+            sign = rng.choice((-1, 1))
+            k0 = rng.randrange(2 ** (kb - 2), 2 ** (kb - 1))
+            dk = rng.randrange(1, max(2, 2 ** (kb - 1) // n))
+            ks = [sign * (k0 + i * dk) for i in range(n)]
+        else:
+            ks = [rng.choice((-1, 1)) * rng.randrange(2 ** (kb - 2), 2 ** kb) for _ in range(n)]
+        cs = []
+        den = 2 ** csbits
+        for k in ks:
+            a = math.ldexp(float(k), -j)
+            cs.append([round(Fraction(math.cos(2 * a)) * den), den, round(Fraction(math.sin(2 * a)) * den), den])
+        return {'shape': list(ashape), 'kj': [[k, j] for k in ks], 'cs': cs}
+
+    def stored_cases(self, quick):
+        """Blind spot closed after seeded mutants round 3: LARGE angles at a tolerance WITHOUT a magnitude term.  For every
+        mode, data dtype and operand kind, decades 1e2 .. 1e6 rad (thorough 1e0 .. 1e8): a single R / R.T, the factories
+        (hwp always; pol / rot alternating, thorough all; scalar and array operands alternate, arrays random or ramps) and a
+        chain (explicit rotating-plate products on ONE rotation object, 2-3 rotation operands of independent kinds and
+        magnitudes on one grid)."""
+        rng = self.rng
+        out = []
+        kinds = ['QU', 'IQU', 'IQUV']
+        chains = [
+            (('RT', 1), ('H', 0), ('R', 1)), (('P', 0), ('RT', 1), ('H', 0), ('R', 1)), (('R', 1), ('R', 2)), (('RT', 1), ('R', 2)),
+            (('R', 1), ('RT', 2)), (('RT', 1), ('RT', 2)), (('R', 1), ('H', 0), ('R', 2)), (('P', 0), ('R', 1), ('R', 2)),
+            (('R', 1), ('RT', 2), ('H', 0)), (('RT', 1), ('H', 0), ('R', 2)), (('H', 0), ('R', 1), ('H', 0)), (('R', 1), ('R', 1)),
+            (('P', 0), ('R', 1)), (('R', 1), ('H', 0), ('RT', 1)), (('RT', 1), ('R', 2), ('RT', 3)), (('P', 0), ('RT', 1), ('H', 0), ('R', 2)),
+        ]
+        decades = (2, 3, 4, 5, 6) if quick else tuple(range(0, 9))
+        n = 0
+        for x64 in (True, False):
+            aks = ('jax64', 'jax32', 'np', 'np32', 'py') if x64 else ('jax', 'np', 'np32', 'py')
+            for dd in (('f32', 'f64') if x64 else ('f32',)):
+                for ak in aks:
+                    bits1 = GRID32 if eff32(ak, x64) else GRID64
+                    cs1 = CSBITS32 if (not x64 or dd == 'f32' or eff32(ak, x64)) else CSBITS64
+                    for dec in decades:
+                        n += 1
+                        common = dict(x64=x64, dd=dd, stored=True)
+                        if dd == 'f64' and x64 and n % 2:
+                            common['xden'] = 2 ** 30
+
+                        def ashape_for(shape, scalar, ak=ak):
+                            if ak == 'py' or scalar:
+                                return ()
+                            return rng.choice([a for a in SHAPES[shape] if a != ()])
+
+                        for t in (('R', 'RT')[n % 2],) if quick else ('R', 'RT'):
+                            arr = self.grid_arr(ashape_for((3,), n % 4 == 0), dec, bits1, ramp=(n % 3 == 0), csbits=cs1)
+                            out.append(self.mk_case('mv', kinds[n % 3], (3,), ops=[{'t': t, 'id': 1, 'ak': ak, 'ang': arr}],
+                                                    key=f'stored-mv:{t}', **common))
+                        for w, which in enumerate(('hwp', ('pol', 'rot')[n % 2]) if quick else ('hwp', 'pol', 'rot')):
+                            shape = (3,) if (n + w) % 3 else (2, 3)
+                            arr = self.grid_arr(ashape_for(shape, (n + w) % 2 == 0), dec, bits1, ramp=((n + w) % 3 == 1), csbits=cs1)
+                            out.append(self.mk_case('factory', kinds[(n + w + 1) % 3], shape, which=which, ang=arr, ak=ak,
+                                                    key=f'stored-factory:{which}', **common))
+                        pat = chains[n % len(chains)]
+                        picks = {}
+                        for t, i in pat:
+                            if i and i not in picks:
+                                picks[i] = (ak, dec) if i == 1 else (rng.choice(aks), rng.randint(0, dec))
+                        any32 = any(eff32(a, x64) for a, _ in picks.values())
+                        bits = GRID32 if any32 else GRID64
+                        csb = CSBITS32 if (any32 or not x64 or dd == 'f32') else CSBITS64
+                        arrs = {i: self.grid_arr(() if a == 'py' else rng.choice(SHAPES[(3,)]), d_, bits, top=dec, ramp=(rng.random() < 0.3), csbits=csb)
+                                for i, (a, d_) in picks.items()}
+                        ops = [({'t': t, 'id': i, 'aid': i, 'ak': picks[i][0], 'ang': arrs[i]} if i else {'t': t}) for t, i in pat]
+                        name = ','.join(f'{t}{i or ""}' for t, i in pat)
+                        out.append(self.mk_case('chain', kinds[(n + 2) % 3], (3,), ops=ops, pattern=name, key='stored-chain:' + name, **common))
+        for c in out:
+            if 'xden' in c:
+                c['x'] = [[v * c['xden'] + self.rng.randint(-2 ** 10, 2 ** 10) for v in l] for l in c['x']]
+            c['tol'] = self.derive_tol(c)
+        return out
+
+    # -- mixed chains: polarimetry segment between operators of other rule families ------------------
+    def foreign_op(self, f, sh, bare):
+        """(description, output component shape) of a neighbour of kind f acting on component shape sh, or None when the
+        kind does not apply to that shape."""
+        rng = self.rng
+        sh = tuple(sh)
+        d = {'t': f, 'sh': list(sh), 'bare': bool(bare)}
+        size = prod(sh)
+        if f == 'pack':
+            if not sh:
+                return None
+            msh = sh if rng.random() < 0.5 else sh[:1]
+            nm = prod(msh)
+            if rng.random() < 0.35:  # nothing flagged: the shapes agree whatever happens to the neighbour
+                bits = [True] * nm
+            else:
+                bits = [rng.random() < 0.6 for _ in range(nm)]
+                bits[rng.randrange(nm)] = True
+            d['mask'] = nest(bits, msh)
+            return d, (sum(bits),) + sh[len(msh):]
+        if f == 'packT':
+            if not sh:
+                return None
+            m_ = sh[0] + rng.randint(0, 2)
+            pos = set(rng.sample(range(m_), sh[0]))
+            d['mask'] = [i in pos for i in range(m_)]
+            d['full'] = [m_] + list(sh[1:])
+            return d, tuple(d['full'])
+        if f in ('index', 'indexT'):
+            if not sh:
+                return None
+            axis = 0 if (len(sh) == 1 or rng.random() < 0.6) else -1
+            n = sh[axis]
+            d['axis'] = axis
+            if f == 'index':
+                r = rng.randint(1, n + 1)
+                d['idx'] = rng.sample(range(n), min(r, n)) if rng.random() < 0.5 else [rng.randrange(n) for _ in range(r)]
+                r = len(d['idx'])
+                return d, ((r,) + sh[1:] if axis == 0 else sh[:-1] + (r,))
+            m_ = n + rng.randint(0, 2)
+            d['idx'] = rng.sample(range(m_), n) if rng.random() < 0.5 else [rng.randrange(m_) for _ in range(n)]
+            d['full'] = list((m_,) + sh[1:] if axis == 0 else sh[:-1] + (m_,))
+            return d, tuple(d['full'])
+        if f in ('diag', 'diagI'):
+            if not sh:
+                return None
+            d['d'] = [rng.choice((1.0, -1.0, 2.0, -2.0, 0.5, 4.0)) for _ in range(sh[-1])]
+            return d, sh
+        if f in ('reshape', 'reshapeT'):
+            cands = [t for t in RESHAPES.get(size, [(size,), (1, size)]) if t != sh]
+            to = rng.choice(cands)
+            if f == 'reshape':
+                d['to'] = list(to)
+            else:
+                d['full'] = list(to)
+            return d, to
+        if f == 'ravel':
+            if not sh:
+                return None
+            return d, (size,)
+        if f == 'ravelT':
+            if len(sh) != 1:
+                return None
+            full = rng.choice([t for t in RESHAPES.get(size, [(1, size)]) if len(t) == 2])
+            d['full'] = list(full)
+            return d, full
+        if f == 'moveaxis':
+            if len(sh) < 2:
+                return None
+            d['src'], d['dst'] = rng.choice(((0, 1), (0, -1), (-1, 0), (1, 0)))
+            out = list(sh)
+            out.insert(d['dst'] % len(sh), out.pop(d['src'] % len(sh)))
+            return d, tuple(out)
+        raise ValueError(f)
+
+    def mixed_case(self, stokes, shape, left, seg, right, x64=True, key='mixed'):
+        """left / right: neighbour kinds (composition order); seg: (tag, id) over R, RT, RI, H, HI, P (leftmost only), PT
+        (rightmost only).  Shapes are propagated from the input (rightmost) to the output; None when a kind does not apply."""
+        rng = self.rng
+        bare = bool(seg) and seg[-1][0] == 'PT'
+        bare_in = bare
+        cur = tuple(shape)
+        r_ops, s_ops, l_ops = [], [], []
+        for f in reversed(right):
+            got = self.foreign_op(f, cur, bare)
+            if got is None:
+                return None
+            r_ops.insert(0, got[0])
+            cur = got[1]
+        angs = {}
+        for t, i in reversed(seg):
+            d = {'t': t, 'sh': list(cur), 'bare': bare}
+            if t in ROTS:
+                if i not in angs:
+                    ashape = rng.choice(bshapes(cur))
+                    angs[i] = (self.pick_ak(ashape, 'mix'), self.rand_arr(ashape, 'gen', turns=(rng.random() < 0.2)))
+                d.update(id=i, aid=i, ak=angs[i][0], ang=angs[i][1])
+            if t == 'P':
+                bare = True
+            elif t == 'PT':
+                bare = False
+            s_ops.insert(0, d)
+        for f in reversed(left):
+            got = self.foreign_op(f, cur, bare)
+            if got is None:
+                return None
+            l_ops.insert(0, got[0])
+            cur = got[1]
+        name = ' @ '.join(list(left) + [f'{t}{i or ""}' for t, i in seg] + list(right))
+        c = self.mk_case('mixed', stokes, shape, ops=l_ops + s_ops + r_ops, pattern=name, x64=x64, key=f'{key}:{name}',
+                         x=self.rand_x(1 if bare_in else STOKES_N[stokes], prod(shape)))
+        if bare_in:
+            c['bare_in'] = True
+        if any(t == 'HI' for t, _ in seg):
+            c['tol'] = max(c['tol'], 1e-5)  # hwp.I is a lazy InverseOperator: conjugate gradient, rtol 1e-6
+            # ... on an INDEFINITE operator: CG breaks down (NaN) when sum(i^2 + q^2) = sum(u^2 + v^2) over the solve's
+            # right-hand side.  Keep I, Q >= 1 resp. 3 and |U|, |V| <= 1 at every position, so that no selection, scatter-add
+            # or per-position scaling by the single neighbour can balance the two (breakdown is a solver matter, not C15's)
+            size = prod(shape)
+            pos = {'I': lambda: rng.randint(1, 5), 'Q': lambda: rng.randint(3, 5), 'U': lambda: rng.randint(-1, 1), 'V': lambda: rng.randint(-1, 1)}
+            c['x'] = [[pos[s_]() for _ in range(size)] for s_ in stokes]
+        return c
+
+    def mixed_cases(self, quick):
+        """Blind spot closed after seeded mutants round 3: polarimetry operators and their lazy transposes / inverses NEXT TO
+        operators of other rule families.  (a) every single polarimetry operand x every neighbour kind x {left, right};
+        (b) polarimetry segments of 2-4 operands (rotating plate, detector chains, cancelling pairs) with 0-2 seeded neighbours on
+        each side; (c) a float32 subset."""
+        rng = self.rng
+        out = []
+        kinds = ['QU', 'IQU', 'IQUV', 'I']
+        bases = [(4,), (6,), (2, 3), (3, 2)]
+        fkinds = list(FOREIGN)
+        singles = [[('R', 1)], [('RT', 1)], [('RI', 1)], [('H', 0)], [('HI', 0)], [('P', 0)], [('PT', 0)]]
+        segs = [
+            [('RT', 1), ('H', 0), ('R', 1)], [('H', 0), ('R', 1)], [('R', 1), ('H', 0)], [('H', 0), ('RT', 1)], [('P', 0), ('R', 1)],
+            [('P', 0), ('RT', 1), ('H', 0), ('R', 1)], [('R', 1), ('R', 2)], [('RT', 1), ('R', 1)], [('RI', 1), ('R', 1)], [('R', 1), ('RI', 1)],
+            [('R', 1), ('RT', 2)], [('RT', 1), ('RT', 2), ('H', 0)], [('P', 0), ('H', 0)], [('RT', 1), ('PT', 0)], [('R', 1), ('H', 0), ('PT', 0)],
+            [('P', 0), ('R', 1), ('PT', 0)], [('RI', 1), ('H', 0), ('R', 2)], [('H', 0), ('H', 0)],
+        ]
+
+        def make(left, seg, right, x64=True, key='mixed', n=0):
+            for attempt in range(8):
+                c = self.mixed_case(kinds[(n + attempt) % (4 if n % 7 == 0 else 3)], bases[(n + attempt) % 4] if attempt else rng.choice(bases),
+                                    left, seg, right, x64=x64, key=key)
+                if c is not None:
+                    out.append(c)
+                    return
+
+        n = 0
+        reps = 1 if quick else 3
+        for seg in singles:
+            for f in fkinds:
+                if quick and seg[0][0] == 'HI' and f not in ('pack', 'packT', 'indexT', 'diagI', 'reshapeT'):
+                    continue  # the conjugate-gradient applications of hwp.I cost ~1 s per case
+                for _ in range(reps):
+                    n += 1
+                    make([f], seg, [], n=n)
+                    n += 1
+                    make([], seg, [f], n=n)
+        for seg in segs:
+            for _ in range(5 if quick else 25):
+                n += 1
+                nl, nr = rng.choice(((1, 0), (0, 1), (1, 1), (2, 1), (1, 2), (2, 0), (0, 2)))
+                make([rng.choice(fkinds) for _ in range(nl)], seg, [rng.choice(fkinds) for _ in range(nr)], n=n)
+        for _ in range(30 if quick else 200):
+            n += 1
+            seg = rng.choice(singles[:4] + singles[5:] + segs)
+            nl, nr = rng.choice(((1, 0), (0, 1), (1, 1)))
+            make([rng.choice(fkinds) for _ in range(nl)], seg, [rng.choice(fkinds) for _ in range(nr)], x64=False, key='mixed-f32', n=n)
         return out
 
     def pick_ak(self, ashape, akp):
@@ -1192,6 +1720,10 @@ class Check(PropertyCheck):
                 cases.append(self.chain_case(pat, st, (2, 3), 'mix', x64=False, key='f32:' + ','.join(pat)))
         # -- F. angle dtype x data dtype x x64 mode x angle magnitude (1e-6 .. 1e6 rad) ------------------
         cases += self.dtype_cases(quick)
+        # -- H. stored-angle cases: large magnitudes at a tolerance without magnitude term ------------------
+        cases += self.stored_cases(quick)
+        # -- I. mixed chains: polarimetry segments between operators of other rule families ------------------
+        cases += self.mixed_cases(quick)
 
         # -- G. dense forms: op.as_matrix() (and the generic one when the class overrides it), of the unreduced and of
         # the reduced operator, against the Mueller matrix in component-major order: every bare HWP / polariser, a quarter
@@ -1201,10 +1733,14 @@ class Check(PropertyCheck):
         nd = 0
         for k, c in enumerate(cases):
             kind, key = c['kind'], str(c.get('key', ''))
-            if kind == 'seq' or key.startswith('noncomposable'):
+            if kind in ('seq', 'mixed') or key.startswith('noncomposable'):
                 continue
             if key.startswith('dtype-'):
                 every = 4
+            elif key.startswith('stored-'):
+                if kind == 'mv':
+                    continue  # the dense forms of single rotations are covered at every magnitude by the dtype ladder
+                every = 12
             elif kind == 'mv':
                 every = 1 if c['ops'][0]['t'] in ('H', 'P') else 4
             elif kind == 'factory':
@@ -1257,6 +1793,23 @@ class Check(PropertyCheck):
             return f'(show_val (x_mv {sh} {op} {x}), 0)'
         if kind in ('chain', 'factory', 'seq'):
             return clist([self.step_term(case, st) for st in case_steps(case)])
+        if kind == 'mixed':
+            # the model evaluates and reduces the polarimetry SEGMENT on the input transported exactly through the right-hand
+            # neighbours (integers scaled by powers of two); None: the segment holds hwp.I / polarizer.T (not in the model)
+            split = mixed_model_segment(case)
+            if split is None:
+                return None
+            left, seg, right = split
+            comps = exact_leaves(case['x'], case['shape'])
+            for d in reversed(right):
+                comps = [foreign_apply(d, a) for a in comps]
+            vals = [[Fraction(v) for v in a.ravel().tolist()] for a in comps]
+            den = 1
+            for l in vals:
+                for v in l:
+                    den = den * v.denominator // math.gcd(den, v.denominator)
+            sub = {'shape': seg[-1]['sh'], 'x': [[int(v * den) for v in l] for l in vals], 'xden': den}
+            return clist([self.step_term(sub, {'ops': seg})])
         raise ValueError(kind)
 
     def decode(self, case, v):
@@ -1274,6 +1827,13 @@ class Check(PropertyCheck):
         elif kind in ('chain', 'factory'):
             obs = dec_step(v[0], case_steps(case)[0], case.get('dense'))
             obs['mutated'] = []
+        elif kind == 'mixed':
+            left, seg, right = mixed_model_segment(case)
+            obs = dec_step(v[0], {'ops': seg})
+            for k in ('before', 'again', 'after', 'after2', 'after1_again'):
+                obs[k] = transport(obs[k], seg[0]['sh'], left)
+            obs['mutated'] = []
+            return snap(obs, self.comparable(case, unfloat(case.get('_raw'))), case['tol'])
         else:
             obs = {'steps': [dec_step(s, st) for s, st in zip(v, case['steps'])], 'mutated': []}
         return snap(obs, unfloat(case.get('_raw')), case['tol'])
@@ -1284,6 +1844,13 @@ class Check(PropertyCheck):
         if case['kind'] == 'mv':
             return {k: v for k, v in obs.items() if k not in MATRIX_KEYS}
         steps = case_steps(case)
+        if case['kind'] == 'mixed':
+            # structure: the polarimetry entries only (the neighbours may legitimately cancel among themselves)
+            o = strip_step(obs, steps[0])
+            for k in STRUCT_KEYS:
+                if isinstance(o.get(k), list):
+                    o[k] = [e for e in o[k] if not (isinstance(e, (list, tuple)) and e and isinstance(e[0], str))]
+            return o
         if case['kind'] == 'seq':
             obs = dict(obs)
             if isinstance(obs.get('steps'), list) and len(obs['steps']) == len(steps):
@@ -1312,10 +1879,16 @@ class Check(PropertyCheck):
             if c.get('dense'):
                 k = f"dense-{c['dense']}/{c['kind']}"
                 d[k] = d.get(k, 0) + 1
+            if c['kind'] == 'mixed':
+                k = 'mixed/' + ('model' if mixed_model_segment(c) else 'oracle-only')
+                d[k] = d.get(k, 0) + 1
+                for o in c['ops']:
+                    if o['t'] in FOREIGN:
+                        d['mixed-neighbour/' + o['t']] = d.get('mixed-neighbour/' + o['t'], 0) + 1
             if 'dd' in c:
                 aks = sorted({o.get('ak', 'jax') for st in (case_steps(c) if c['kind'] != 'mv' else [{'ops': c['ops']}])
                               for o in ([st] if 'which' in st else st['ops']) if 'ak' in o or 'which' in st})
-                k = f"dtype/{'x64' if c['x64'] else 'x32'}/data-{c['dd']}/angles-{'+'.join(aks)}"
+                k = f"{'stored' if c.get('stored') else 'dtype'}/{'x64' if c['x64'] else 'x32'}/data-{c['dd']}/angles-{'+'.join(aks)}"
                 d[k] = d.get(k, 0) + 1
         return d
 
@@ -1339,7 +1912,13 @@ class Check(PropertyCheck):
                 'operand chain whose other rotation has its own kind and magnitude; exact (cos 2a, sin 2a) throughout, derived '
                 'tolerance.  Dense forms: as_matrix() (+ generic when overridden) of unreduced / reduced / transposed operators vs '
                 'the component-major NumPy Mueller matrix on every bare HWP / polariser, a quarter of the single rotations and '
-                'factories, and a fixed pseudo-random fraction of the chains and dtype cases.  Distinct by canonical JSON of the case')
+                'factories, and a fixed pseudo-random fraction of the chains and dtype cases.  Stored-angle ladder: the same modes / '
+                'data dtypes / operand kinds at 1e2 .. 1e6 rad (thorough 1e0 .. 1e8) with grid angles k / 2^j exact in the operand dtype '
+                '(scalars, random arrays, linear ramps), single R / R.T, hwp + pol / rot factories, explicit rotating-plate products and '
+                '2-3 operand chains on one grid, tolerance 5e-6 / 1e-13 without magnitude term.  Mixed chains: every polarimetry operand '
+                '(R, R.T, R.I, HWP, HWP.I, polariser, polariser.T) x every neighbour kind (pack, pack.T, index, index.T, diagonal, '
+                'diagonal.I, reshape, reshape.T, ravel, ravel.T, moveaxis) x {left, right}, 18 segments of 2-4 operands with 0-2 seeded '
+                'neighbours per side, a float32 subset; shapes (4,), (6,), (2,3), (3,2).  Distinct by canonical JSON of the case')
 
     # ------------------------------------------------------------------------------------------
     def oracle(self, case, obs):
